@@ -12,9 +12,11 @@
                             "_data_algebra_temp_g"                 a column of ones: the grouping column when partition_by is empty,
                                                                     and the selected column of _size()
        _natural_join_step   "data_algebra_temp_merge_col"          join key when `on` is empty; written into both inputs, deleted
+                            "data_algebra_temp_null_key_col"       extra join key marking the rows with a null key, when both inputs
+                                                                    have such rows (af27aca); written into both inputs, deleted
                             "<c>_tmp_right_col"                    suffix pandas.merge gives the right copy of a shared non-key column
-     Polars executor (polars_model.py): "_da_*" literals and the join suffixes "_da_right_tmp" / "_da_left_tmp" /
-       "_da_join_tmp_key"  -- listed in `reserved`, not transcribed (the check's oracle covers them).
+     Polars executor (polars_model.py): "_da_*" literals, the keyless-join key "_da_join_scratch_key" and the join suffixes
+       "_da_right_tmp" / "_da_left_tmp"  -- listed in `reserved`, not transcribed (the check's oracle covers them).
      SQL generator (sql_model.py): view (CTE) names "<kind>_<n>" and join aliases "join_source_left_<n>" /
        "join_source_right_<n>", in the namespace of the user's TABLE names.
 
@@ -81,11 +83,14 @@ Record prims (A : Type) := mkprims {
   p_groupkey : list A -> nat -> A;                        (* i-th key column after reset_index *)
   p_merge_left : string -> list A -> list A -> A -> A;    (* a column of the left frame carried through pd.merge(how, keys) *)
   p_merge_right : string -> list A -> list A -> A -> A;
-  p_fillna : A -> A -> A                                  (* res.loc[c.isnull(), c] = other *)
+  p_fillna : A -> A -> A;                                 (* res.loc[c.isnull(), c] = other *)
+  p_nullmark_left : list A -> A;                          (* numpy.where(keys.isnull().any(axis=1), arange + 1, 0) *)
+  p_nullmark_right : list A -> A                          (* numpy.where(keys.isnull().any(axis=1), -(arange + 1), 0) *)
 }.
 Arguments p_const {A}. Arguments p_index {A}. Arguments p_sort {A}. Arguments p_cumcount {A}. Arguments p_ngroup {A}.
 Arguments p_size {A}. Arguments p_transform {A}. Arguments p_agg {A}. Arguments p_groupkey {A}.
 Arguments p_merge_left {A}. Arguments p_merge_right {A}. Arguments p_fillna {A}.
+Arguments p_nullmark_left {A}. Arguments p_nullmark_right {A}.
 
 (* ------------------------------------------------------------------ the executor's own names *)
 Record pnames := mkpn {
@@ -95,6 +100,7 @@ Record pnames := mkpn {
   n_orig_index : string;
   n_ext_tmp : nat -> string;
   n_merge : string;
+  n_nullkey : string;
   n_right : string -> string
 }.
 Local Open Scope string_scope.
@@ -105,6 +111,7 @@ Definition hard : pnames := {|
   n_orig_index := "_data_algebra_orig_index";
   n_ext_tmp := fun n => "data_algebra_extend_temp_col_" ++ dec n;
   n_merge := "data_algebra_temp_merge_col";
+  n_nullkey := "data_algebra_temp_null_key_col";
   n_right := fun c => c ++ "_tmp_right_col" |}.
 
 (* names chosen away from a given set of user names: a pad longer than every user name, then the usual name.
@@ -119,6 +126,7 @@ Definition fresh (u : list string) : pnames :=
   n_orig_index := p ++ "_data_algebra_orig_index";
   n_ext_tmp := fun n => p ++ "data_algebra_extend_temp_col_" ++ dec n;
   n_merge := p ++ "data_algebra_temp_merge_col";
+  n_nullkey := p ++ "data_algebra_temp_null_key_col";
   n_right := fun c => p ++ c ++ "_tmp_right_col" |}.
 Local Close Scope string_scope.
 
@@ -149,6 +157,7 @@ Definition code_names (in_use common : list string) : pnames :=
   n_orig_index := unused "_data_algebra_orig_index" in_use;
   n_ext_tmp := fun n => unused ("data_algebra_extend_temp_col_" ++ dec n) in_use;
   n_merge := unused "data_algebra_temp_merge_col" in_use;
+  n_nullkey := unused "data_algebra_temp_null_key_col" in_use;
   n_right := fun c => c ++ sfx |}.
 Local Close Scope string_scope.
 
@@ -160,14 +169,15 @@ Definition arg_cols (a : arg) : list string := match a with ArgCol c => [c] | _ 
 Inductive pstep :=
   | PProject (ops : list sop) (gb : list string)
   | PWExtend (ops : list sop) (part order rev : list string)
-  | PJoin (how : string) (on : list string).              (* on_a = on_b = on (same-named keys); [] = no key *)
+  | PJoin (how : string) (on : list string) (nullkeys : bool).
+      (* on_a = on_b = on (same-named keys); [] = no key; nullkeys: both inputs have a row with a null key (data, not names) *)
 
 (* every column name the USER wrote in the step *)
 Definition step_names (s : pstep) : list string :=
   match s with
   | PProject ops gb => gb ++ flat_map (fun o => so_key o :: arg_cols (so_arg o)) ops
   | PWExtend ops part order rev => part ++ order ++ rev ++ flat_map (fun o => so_key o :: arg_cols (so_arg o)) ops
-  | PJoin _ on => on
+  | PJoin _ on _ => on
   end.
 
 Section Steps.
@@ -353,28 +363,39 @@ Section Steps.
                ++ map (fun nb => ((if mem (fst nb) (fcols lf) then suffix (fst nb) else fst nb), p_merge_right P how ka kb (snd nb))) rrest in
     if nodupb (fcols out) then Some out else None.
 
-  Fixpoint coalesce_common (sn : pnames) (cs : list string) (res : frame A) : option (frame A) :=     (* 1060-1064 *)
+  Fixpoint coalesce_common (sn : pnames) (cs : list string) (res : frame A) : option (frame A) :=     (* the loop after the merge *)
     match cs with
     | [] => Some res
-    | c :: t => a <- fget res c ;; b <- fget res (n_right sn c) ;;
-                coalesce_common sn t (fdel (fset res c (p_fillna P a b)) (n_right sn c))
+    | c :: t => if mem (n_right sn c) (fcols res)                                    (* `if (c + right_suffix) in res.columns` (756a9c2) *)
+                then a <- fget res c ;; b <- fget res (n_right sn c) ;;
+                     coalesce_common sn t (fdel (fset res c (p_fillna P a b)) (n_right sn c))
+                else coalesce_common sn t res
     end.
 
-  Definition pexec_join (sn : pnames) (how : string) (on : list string) (lf0 rg0 : frame A) : option (frame A) :=
-    let common := filter (fun c => mem c (fcols rg0)) (fcols lf0) in            (* 1029 *)
-    let '(on', lf, rg) := (match on with
-                                | [] => ([n_merge sn], fset lf0 (n_merge sn) one, fset rg0 (n_merge sn) one)   (* 1040-1045 *)
-                                | _ => (on, lf0, rg0)
-                                end) in
-    ka <- freads lf on' ;; kb <- freads rg on' ;;
-    res <- pd_merge (n_right sn) how on' ka kb lf rg ;;                         (* 1047-1055 *)
-    let res1 := (match on with [] => fdel res (n_merge sn) | _ => res end) in        (* 1057-1058 *)
-    coalesce_common sn (filter (fun c => negb (mem c on)) common) res1.
+  Definition pexec_join (sn : pnames) (how : string) (on : list string) (nullkeys : bool) (lf0 rg0 : frame A) : option (frame A) :=
+    let common := filter (fun c => mem c (fcols rg0)) (fcols lf0) in
+    (* no key: a scratch key column of ones in both inputs *)
+    let '(on1, lf1, rg1, sk1) := (match on with
+                                  | [] => ([n_merge sn], fset lf0 (n_merge sn) one, fset rg0 (n_merge sn) one, [n_merge sn])
+                                  | _ => (on, lf0, rg0, [])
+                                  end) in
+    ka1 <- freads lf1 on1 ;; kb1 <- freads rg1 on1 ;;                                (* left[on_a].isnull() ... *)
+    (* both sides have rows with a null key: a marker column in both inputs joins the keys (af27aca) *)
+    let '(on2, lf2, rg2, sk2) := (if nullkeys
+                                  then (on1 ++ [n_nullkey sn], fset lf1 (n_nullkey sn) (p_nullmark_left P ka1),
+                                        fset rg1 (n_nullkey sn) (p_nullmark_right P kb1), sk1 ++ [n_nullkey sn])
+                                  else (on1, lf1, rg1, sk1)) in
+    ka <- freads lf2 on2 ;; kb <- freads rg2 on2 ;;
+    res <- pd_merge (n_right sn) how on2 ka kb lf2 rg2 ;;                            (* pd.merge(left_on, right_on, suffixes=("", right_suffix)) *)
+    let res1 := fold_left fdel sk2 res in                                            (* del res[scratch_col]; del res[null_key_col] *)
+    coalesce_common sn common res1.
 
   (* frames are assumed to have distinct column names (data_algebra never builds others) *)
-  Definition plain_join (how : string) (on : list string) (lf rg : frame A) : option (frame A) :=
-    ka <- (match on with [] => Some [one] | _ => freads lf on end) ;;
-    kb <- (match on with [] => Some [one] | _ => freads rg on end) ;;
+  Definition plain_join (how : string) (on : list string) (nullkeys : bool) (lf rg : frame A) : option (frame A) :=
+    ka1 <- (match on with [] => Some [one] | _ => freads lf on end) ;;
+    kb1 <- (match on with [] => Some [one] | _ => freads rg on end) ;;
+    let ka := if nullkeys then ka1 ++ [p_nullmark_left P ka1] else ka1 in
+    let kb := if nullkeys then kb1 ++ [p_nullmark_right P kb1] else kb1 in
     Some (map (fun na => (fst na,
                           match (if negb (mem (fst na) on) then fget rg (fst na) else None) with
                           | Some b => p_fillna P (p_merge_left P how ka kb (snd na)) (p_merge_right P how ka kb b)
@@ -388,13 +409,13 @@ Section Steps.
     match s with
     | PProject ops gb => pexec_project sn ops gb f
     | PWExtend ops part order rev => pexec_wextend sn ops part order rev f
-    | PJoin how on => pexec_join sn how on f g
+    | PJoin how on nk => pexec_join sn how on nk f g
     end.
   Definition plain (s : pstep) (f g : frame A) : option (frame A) :=
     match s with
     | PProject ops gb => plain_project ops gb f
     | PWExtend ops part order rev => plain_wextend ops part order rev f
-    | PJoin how on => plain_join how on f g
+    | PJoin how on nk => plain_join how on nk f g
     end.
 End Steps.
 
@@ -402,10 +423,10 @@ End Steps.
 Definition step_in_use {A} (s : pstep) (f g : frame A) : list string :=
   match s with
   | PProject ops _ | PWExtend ops _ _ _ => fcols f ++ map so_key ops
-  | PJoin _ _ => fcols f ++ fcols g
+  | PJoin _ _ _ => fcols f ++ fcols g
   end.
 Definition step_common {A} (s : pstep) (f g : frame A) : list string :=
-  match s with PJoin _ _ => filter (fun c => mem c (fcols g)) (fcols f) | _ => [] end.
+  match s with PJoin _ _ _ => filter (fun c => mem c (fcols g)) (fcols f) | _ => [] end.
 Definition pexec_code {A} (P : prims A) (s : pstep) (f g : frame A) : option (frame A) :=
   pexec P (code_names (step_in_use s f g) (step_common s f g)) s f g.
 (* what the builders guarantee: a step only refers to columns that exist *)
@@ -413,7 +434,7 @@ Definition step_refers_to_frame {A} (s : pstep) (f g : frame A) : Prop :=
   match s with
   | PProject ops gb => forall c, In c (gb ++ flat_map (fun o => arg_cols (so_arg o)) ops) -> In c (fcols f)
   | PWExtend ops part order rev => forall c, In c (part ++ order ++ rev ++ flat_map (fun o => arg_cols (so_arg o)) ops) -> In c (fcols f)
-  | PJoin _ on => forall c, In c on -> In c (fcols f)
+  | PJoin _ on _ => forall c, In c on -> In c (fcols f)
   end.
 
 (* ------------------------------------------------------------------ the table of the system's own names *)
@@ -431,6 +452,7 @@ Definition reserved : list rentry := [
   mkre KExact "_data_algebra_orig_index" SColumn "pandas" "extend_orig_index";
   mkre KExact "_data_algebra_temp_g" SColumn "pandas" "extend_standin";
   mkre KExact "data_algebra_temp_merge_col" SColumn "pandas" "join_merge_key";
+  mkre KExact "data_algebra_temp_null_key_col" SColumn "pandas" "join_null_key";
   mkre KSuffix "_tmp_right_col" SColumn "pandas" "join_suffix";
   mkre KExact "_da_temp_zero_column" SColumn "polars" "temp_literal";
   mkre KExact "_da_temp_one_column" SColumn "polars" "temp_literal";
@@ -439,7 +461,7 @@ Definition reserved : list rentry := [
   mkre KExact "_da_project_temp_group_by_column" SColumn "polars" "project_standin";
   mkre KPrefixNum "_da_extend_temp_v_column_" SColumn "polars" "extend_const";
   mkre KPrefixNum "_da_project_temp_v_column_" SColumn "polars" "project_const";
-  mkre KSuffix "_da_join_tmp_key" SColumn "polars" "join_suffix";
+  mkre KExact "_da_join_scratch_key" SColumn "polars" "join_merge_key";
   mkre KSuffix "_da_left_tmp" SColumn "polars" "join_suffix";
   mkre KSuffix "_da_right_tmp" SColumn "polars" "join_suffix";
   mkre KPrefixNum "table_reference_" STable "sql" "view_name";
